@@ -110,6 +110,58 @@ class PC(object):
         return r, m
 
 
+def second_opinion(facts, timeout_s=20):
+    """z3 answered `unknown`: ask cvc5 (CLI) for the same quantifier-free query.  Returns ('unsat', None), ('sat', {name: int})
+    for the integer constants of the query, or ('unknown', None).  Used only to turn `unknown` into a verdict; a `sat` answer is
+    re-validated by z3 with the integer constants fixed to cvc5's values before it is believed."""
+    import subprocess, tempfile, re as _re, os as _os
+    sv = z3.Solver()
+    for f in facts:
+        sv.add(f)
+    smt = sv.to_smt2()
+    smt = smt.replace('(check-sat)', '(check-sat)\n(get-model)')
+    logic = '(set-logic ALL)\n(set-option :produce-models true)\n'
+    fd, path = tempfile.mkstemp(suffix='.smt2', dir='/var/tmp')
+    try:
+        with _os.fdopen(fd, 'w') as fh:
+            fh.write(logic + smt)
+        t = time.time()
+        try:
+            p = subprocess.run(['/usr/bin/cvc5', '--lang=smt2', '--tlimit=%d' % (timeout_s * 1000), path], capture_output=True, text=True, timeout=timeout_s + 10)
+        except Exception:
+            return 'unknown', None
+        finally:
+            STATS['queries'] += 1
+            STATS['solver_s'] += time.time() - t
+            STATS['cvc5'] = STATS.get('cvc5', 0) + 1
+        out = p.stdout
+        first = out.strip().splitlines()[0] if out.strip() else ''
+        if first == 'unsat':
+            return 'unsat', None
+        if first == 'sat':
+            env = {}
+            for m in _re.finditer(r'\(define-fun\s+(\|[^|]*\||\S+)\s+\(\)\s+(Int|Real)\s+(.*)\)\s*$', out, _re.M):
+                txt = m.group(3).strip()
+                nums = _re.findall(r'\d+(?:\.\d+)?', txt)
+                try:
+                    if txt.startswith('(/') or txt.startswith('(- (/'):
+                        val = Fraction(nums[0]) / Fraction(nums[1])
+                    else:
+                        val = Fraction(nums[0])
+                    if txt.startswith('(-'):
+                        val = -val
+                except Exception:
+                    continue
+                env[m.group(1).strip('|')] = val
+            return 'sat', env
+        return 'unknown', None
+    finally:
+        try:
+            _os.unlink(path)
+        except OSError:
+            pass
+
+
 def _ranges(vars):
     out = []
     for v, b in vars:
